@@ -210,7 +210,7 @@ where
                         .map_err(CodecError::DecompressFailure)?;
                 }
 
-                let mut batch = decode_message_batch(bytes);
+                let mut batch = decode_message_batch(bytes).map_err(CodecError::DecodeFailure)?;
                 // Messages are handed out with `pop`, so store the batch back to front
                 batch.reverse();
                 self.message_batch = Some(batch);
